@@ -433,7 +433,12 @@ def fingerprint(min_lines, impl, cls, shrunk):
                 atags.update(tags)
         elif f[0] == "kube":
             kinds.add("Kube")
-        elif f[0] in ("push", "dpush") and not verdict and cls in verdict_classes(o):
+        elif f[0] == "step" and len(f) > 2:
+            kinds.add(f[2])
+            kinds.add("push-sequence")   # the failure needs the sequence (the shrinker tries the flattened store state first)
+            if not verdict and cls in verdict_classes(o):
+                verdict = clause_verdict(o, cls)
+        elif f[0] in PUSH_OPS and not verdict and cls in verdict_classes(o):
             verdict = clause_verdict(o, cls)
             if f[0] == "dpush":
                 kinds.add("incremental-push")
@@ -461,6 +466,7 @@ def fingerprint(min_lines, impl, cls, shrunk):
     return "snapshot:%s:admitted:%s" % (c, "+".join(sorted(kinds)) or "Service"), False, []
 
 
+PUSH_OPS = ("push", "dpush", "dseq", "step")   # the lines whose output is a judged snapshot
 HTTP_PROTOCOLS = ("HTTP", "HTTP2", "GRPC", "GRPC-WEB", "HTTP_PROXY")
 
 
@@ -681,10 +687,10 @@ def snapshot_file(ctx, ops_path, tag):
             op = ops[i].split()
             if op[0] == "cfg":
                 ctx.count("snapshot.objects.%s.%s" % (op[1], impl[i].split()[0]))
-            if op[0] not in ("push", "dpush"):
+            if op[0] not in PUSH_OPS:
                 continue
             judged += 1
-            ctx.count("snapshot.%s.%s" % ("pushes" if op[0] == "push" else "incremental_pushes", op[1]))
+            ctx.count("snapshot.%s.%s" % ({"push": "pushes", "dseq": "pushes", "dpush": "incremental_pushes", "step": "sequence_steps"}[op[0]], op[1]))
             head, _, allv = impl[i].partition(" || ")
             go_first, _, info = head.partition(" | ")
             go_v = allv or go_first
@@ -719,11 +725,11 @@ def snapshot_file(ctx, ops_path, tag):
                     classes.setdefault(c, i)
             else:
                 ctx.count("snapshot.verdict.ok")
-        nontrivial = any(l.startswith(("push", "dpush")) for l in clines)
+        nontrivial = any(l.startswith(PUSH_OPS) for l in clines)
         sample = None
         if len(ctx.samples) < 3 and nontrivial:
             sample = {"stream": "snapshot", "ops": [l[:300] for l in clines[:4]] + ["... (%d lines)" % len(clines)],
-                      "implementation_output": [impl[i][:200] for i in range(s, e) if ops[i].startswith(("push", "dpush"))][:4]}
+                      "implementation_output": [impl[i][:200] for i in range(s, e) if ops[i].startswith(PUSH_OPS)][:4]}
         ctx.note_case("snapshot\n" + "\n".join(canon), nontrivial, sample)
         for cls in sorted(classes, key=lambda c: (class_rank(c), classes[c])):
             i = classes[cls]
@@ -758,11 +764,11 @@ def snapshot_file(ctx, ops_path, tag):
         if any(c.startswith("crash process") for o in simpl for c in verdict_classes(o)):
             # the process died: the per-object admission verdicts were lost; get them from a run without the pushes
             q = os.path.join(ctx.work, "snapshot.%s.fpv.ops" % tag)
-            nopush = [l for l in small if not l.startswith(("push", "dpush"))]
+            nopush = [l for l in small if not l.startswith(PUSH_OPS)]
             write_lines(q, nopush)
             vimpl, _ = exec_snapshot(ctx, q, tag + ".fpv", retry=False)
             vmap = dict(zip(nopush, vimpl))
-            simpl = [vmap.get(l, o) if not l.startswith(("push", "dpush")) else o for l, o in zip(small, simpl)]
+            simpl = [vmap.get(l, o) if not l.startswith(PUSH_OPS) else o for l, o in zip(small, simpl)]
         elif ok and not any(cls in verdict_classes(o) for o in simpl):
             ok = False   # the shrunk mesh does not show the class in a fresh process
             ctx.count("snapshot.shrunk_mesh_not_reproduced")
@@ -831,7 +837,8 @@ def run(ctx):
                 "0-4 VirtualServices, Sidecars, EnvoyFilters, PeerAuthentication, AuthorizationPolicy, RequestAuthentication, Telemetry, WasmPlugin, ProxyConfig; "
                 "hosts/ports/VIPs drawn from small colliding pools; every second case has EXACTLY ONE object damaged past validation by one mutation of a "
                 "catalogue of 86, the k-th such case forced to the k-th entry) x 3-6 proxies (sidecar / router / waypoint), each with a full push and some "
-                "with an incremental push merged into it; every push, every clause and every API validation reason is judged; one evaluation = one case; distinct = hash of the "
+                "with an incremental push merged into it; in a quarter of the valid cases one proxy's delta-xDS client is followed through 3-6 store changes "
+                "(dseq / step) and every intermediate merged state is judged; every push, every clause and every API validation reason is judged; one evaluation = one case; distinct = hash of the "
                 "abstract snapshots of its pushes; non-trivial = at least one push. kernel streams: random and adversarial inputs per kernel")
     ctx.assumptions = [
         "PARTIAL: that real generation always yields a WellFormed snapshot (or terminates) is EXPLORED on the generated meshes, not proved; "
@@ -910,18 +917,18 @@ MANIFEST = {
                    "rule (listener_conflict_total, one_entry_per_key, locked_frozen), the gateway TLS-host duplicate filter (accepted_hosts_unique), "
                    "each linked to the monitor clause it establishes (the link theorems are conditional on 'the snapshot's list IS the kernel's output', which no run "
                    "establishes for a full push). NOT proved: that xDS generation as a whole always yields a WellFormed snapshot "
-                   "or terminates - that is explored: the verified monitor runs on real full and incremental pushes (real FakeDiscoveryServer, real CDS/EDS/LDS/RDS "
+                   "or terminates - that is explored: the verified monitor runs on real full and incremental pushes and on the merged client state after every step of push sequences (create / update / delete of objects in the running server; real FakeDiscoveryServer, real CDS/EDS/LDS/RDS "
                    "generators) of random meshes from colliding valid objects and from objects mutated past validation, for sidecar, router and "
                    "waypoint proxies, and must agree with an independent Go re-statement and accept."),
     "level_note": ("Weakest fit of the 20 properties: proof covers the monitor and five kernels, not generation (~100k lines); evidence separates proved "
-                   "obligations (theorems) from explored snapshots (coverage.proved_vs_explored, counters snapshot.*; ~2350 real snapshots per quick "
+                   "obligations (theorems) from explored snapshots (coverage.proved_vs_explored, counters snapshot.*; ~2600 real snapshots per quick "
                    "run, ~35000 thorough). Trusted: Lean kernel + {propext, Classical.choice, Quot.sound}; the hand-written kernel models (tied by "
                    "differential streams domains/clusters/answer/gwdup and the exhaustive 930-row table lconflict on the real functions); the "
                    "reduction of Envoy protos to the abstract snapshot (cross-checked on every snapshot by the Go re-statement on the protos); hooks "
                    "pilot/pkg/networking/core/zz_verif_c14.go, zz_verif_c12.go; Envoy's acceptance rules taken from the API comments (no Envoy "
                    "runs; dup-fcm is match equality, not Envoy's stronger overlap check); admission = schema ValidateConfig (CRD CEL rules not "
-                   "run); nil elements of repeated fields not generated; ambient cases toggle features.EnableAmbient* in-process. 19 defects found "
-                   "and fixed in /repo (14 with admitted objects); 5 admitted known findings (a non-HTTP port of an address-less service on one of the "
+                   "run); nil elements of repeated fields not generated; ambient cases toggle features.EnableAmbient* in-process. 20 defects found "
+                   "and fixed in /repo (15 with admitted objects); 5 admitted known findings (a non-HTTP port of an address-less service on one of the "
                    "sidecar's own ports; four gateway server-merge defects incl. istio#24638), each decided by a classifier on the shrunk mesh and the "
                    "verdict (protocol, server order, binds, duplicated listener and match key), and the family 'invalid input reaches Envoy config "
                    "unsanitised' as 28 explicit (rule, mutation) pairs are listed as known; every crash, every other clause, every other combination "
